@@ -521,7 +521,7 @@ pub trait Model: Sync {
     /// real object + reference model
     type State: Clone + Send + Sync;
     type Init: Clone + Serialize + DeserializeOwned + Hash + Send + Sync;
-    type Action: Clone + Serialize + DeserializeOwned + Hash + Send + Sync;
+    type Action: Clone + Serialize + DeserializeOwned + Hash + Send + Sync + core::fmt::Debug + PartialEq;
 
     fn init(&self, i: &Self::Init) -> Self::State;
     fn actions(&self, i: &Self::Init, s: &Self::State, depth: usize) -> Vec<Self::Action>;
@@ -735,6 +735,109 @@ impl Run {
             samples,
         );
         stats
+    }
+}
+
+// ---------------------------------------------------------------------------------------------
+// second explorer: the same model objects run through stateright's BFS (thorough tiers)
+
+struct SrModel<M: Model> {
+    m: std::sync::Arc<M>,
+    inits: std::sync::Arc<Vec<M::Init>>,
+    depth: usize,
+    calls: std::sync::atomic::AtomicU64,
+}
+struct SrState<M: Model> {
+    init_ix: usize,
+    depth: usize,
+    key: u64,
+    state: std::sync::Arc<M::State>,
+}
+impl<M: Model> Clone for SrState<M> {
+    fn clone(&self) -> Self {
+        SrState { init_ix: self.init_ix, depth: self.depth, key: self.key, state: self.state.clone() }
+    }
+}
+impl<M: Model> core::fmt::Debug for SrState<M> {
+    fn fmt(&self, f: &mut core::fmt::Formatter<'_>) -> core::fmt::Result {
+        write!(f, "SrState(init {}, depth {}, key {:016x})", self.init_ix, self.depth, self.key)
+    }
+}
+// identity of a state = canonical content only (not the depth at which it was first seen)
+impl<M: Model> PartialEq for SrState<M> {
+    fn eq(&self, o: &Self) -> bool {
+        self.init_ix == o.init_ix && self.key == o.key
+    }
+}
+impl<M: Model> Eq for SrState<M> {}
+impl<M: Model> Hash for SrState<M> {
+    fn hash<H: Hasher>(&self, h: &mut H) {
+        self.init_ix.hash(h);
+        self.key.hash(h);
+    }
+}
+impl<M: Model + Send + 'static> stateright::Model for SrModel<M>
+where
+    M::State: 'static,
+    M::Init: 'static,
+    M::Action: 'static,
+{
+    type State = SrState<M>;
+    type Action = M::Action;
+    fn init_states(&self) -> Vec<Self::State> {
+        self.inits
+            .iter()
+            .enumerate()
+            .map(|(ix, i)| {
+                let s = self.m.init(i);
+                let key = self.m.key(&s);
+                SrState { init_ix: ix, depth: 0, key, state: std::sync::Arc::new(s) }
+            })
+            .collect()
+    }
+    fn actions(&self, s: &Self::State, out: &mut Vec<Self::Action>) {
+        if s.depth < self.depth {
+            out.extend(self.m.actions(&self.inits[s.init_ix], &s.state, s.depth));
+        }
+    }
+    fn next_state(&self, s: &Self::State, a: Self::Action) -> Option<Self::State> {
+        self.calls.fetch_add(1, std::sync::atomic::Ordering::Relaxed);
+        let mut obs = Obs::new();
+        let init = &self.inits[s.init_ix];
+        let n = guarded(|| self.m.step(init, &s.state, &a, &mut obs)).ok()?;
+        let key = self.m.key(&n);
+        Some(SrState { init_ix: s.init_ix, depth: s.depth + 1, key, state: std::sync::Arc::new(n) })
+    }
+    fn properties(&self) -> Vec<stateright::Property<Self>> {
+        vec![stateright::Property::always("explored", |_, _| true)]
+    }
+}
+
+impl Run {
+    /// Re-explores the same model with stateright's single-threaded BFS and requires the same number
+    /// of unique states and of transition-function calls as `explore` reported.  A disagreement is a
+    /// machinery failure (panic -> child exit != 0), never a verdict.
+    pub fn cross_check_stateright<M: Model + Send + 'static>(&mut self, group: &str, model: std::sync::Arc<M>, inits: Vec<M::Init>, depth: usize, own: &ExploreStats)
+    where
+        M::State: 'static,
+        M::Init: 'static,
+        M::Action: 'static,
+    {
+        use stateright::{Checker, Model as _};
+        if self.replay.is_some() {
+            return;
+        }
+        let t0 = Instant::now();
+        let sr = SrModel { m: model, inits: std::sync::Arc::new(inits), depth, calls: std::sync::atomic::AtomicU64::new(0) };
+        let checker = sr.checker().threads(1).spawn_bfs().join();
+        let unique = checker.unique_state_count() as u64;
+        let calls = checker.model().calls.load(std::sync::atomic::Ordering::Relaxed);
+        self.note(format!("stateright cross-check of {group}: unique states {unique} (own {}), next_state calls {calls} (own transitions {}), {:.1}s", own.states, own.transitions, t0.elapsed().as_secs_f64()));
+        let c = self.report.counters.entry("stateright_unique_states".into()).or_default();
+        *c += unique;
+        let c = self.report.counters.entry("stateright_next_state_calls".into()).or_default();
+        *c += calls;
+        assert!(unique == own.states && calls == own.transitions, "MACHINERY: stateright and the own explorer disagree on {group}: unique {unique} vs {}, calls {calls} vs {}", own.states, own.transitions);
     }
 }
 
